@@ -247,3 +247,13 @@ def describe_owner(fn, node, name):
     if len(defs) == 1 and isinstance(defs[0].value, ast.Call) and dotted(defs[0].value.func):
         return "(%s)" % dotted(defs[0].value.func)
     return name
+
+
+def canon(text, mapping):
+    """rename resolved local names to canonical ones in a source text (whole
+    identifiers only, never attribute names)"""
+    import re
+    for old, new in mapping.items():
+        if old and old != new:
+            text = re.sub(r"(?<![\w.])%s\b" % re.escape(old), new, text)
+    return text
